@@ -115,3 +115,18 @@ package middleware
 //@ func init
 //@   property C20
 //@   ensures* goroutine.safe.source: intn == rand.Intn
+
+// "Paths to discard from tracing": the option records exactly the pattern it was given, after the ones recorded
+// before (the trace middlewares test each recorded pattern on its own, see http/middleware and grpc/middleware).
+//@ func DiscardFromTrace$1
+//@   params o
+//@   property C19
+//@   captures discard:*regexp.Regexp
+//@   requires o != nil
+//@   ensures* recorded: result == o && len(o.discards) == old(len(o.discards)) + 1 && o.discards[len(o.discards) - 1] == discard
+//@   ensures* earlier.kept: forall i int :: 0 <= i && i < old(len(o.discards)) ==> o.discards[i] == old(o.discards[i])
+//@ func (*TraceOptions).Discards
+//@   params o
+//@   property C19
+//@   ensures* the.recorded.list: result == o.discards
+//@   modifies nothing
